@@ -341,6 +341,11 @@ fn run_http(ctx: &mut Ctx, content: Arc<Vec<u8>>, ranges: Vec<(u64, usize)>, sin
     }
     let ranges2 = ranges.clone();
     let t0 = simkit::now_ns();
+    // a caller with its own outer retry polls the stream again after an error: what it gets then
+    // (kept apart from the history the model explains: `after`, and the request log is cut where
+    // the first error was returned)
+    let after: Arc<std::sync::Mutex<(Vec<Item>, usize, u64)>> = Arc::new(std::sync::Mutex::new((Vec::new(), usize::MAX, 0)));
+    let (after2, server2) = (after.clone(), server.clone());
     let r = run_async(async move {
         let mut rb = reqwest::Client::new().get(URL.parse::<reqwest::Url>().unwrap());
         if let Some(t) = timeout_s {
@@ -366,6 +371,26 @@ fn run_http(ctx: &mut Ctx, content: Arc<Vec<u8>>, ranges: Vec<(u64, usize)>, sin
                     Ok(b) => items.push(Item::Data(b.to_vec())),
                     Err(e) => {
                         items.push(Item::Err(e.to_string()));
+                        // (not after a failure to send: the request future has completed with that
+                        // error, and polling a completed reqwest future again panics in hyper just
+                        // as it does in the facade -- bitar's Archive never does, it wraps the
+                        // stream in StreamUntilFirstError)
+                        let dbg = format!("{:?}", e);
+                        if dbg.contains("kind: Connect") || dbg.contains("kind: Timeout,") {
+                            break;
+                        }
+                        {
+                            let mut a = after2.lock().unwrap();
+                            a.1 = server2.lock().unwrap().log.len();
+                            a.2 = simkit::now_ns();
+                        }
+                        for _ in 0..3 {
+                            match st.next().await {
+                                Some(Ok(b)) => after2.lock().unwrap().0.push(Item::Data(b.to_vec())),
+                                Some(Err(e)) => after2.lock().unwrap().0.push(Item::Err(e.to_string())),
+                                None => break,
+                            }
+                        }
                         break;
                     }
                 }
@@ -373,9 +398,16 @@ fn run_http(ctx: &mut Ctx, content: Arc<Vec<u8>>, ranges: Vec<(u64, usize)>, sin
         }
         items
     });
-    let log = server.lock().unwrap().log.clone();
+    let (after_items, log_cut, t_err) = {
+        let a = after.lock().unwrap();
+        (a.0.iter().map(|i| match i { Item::Data(d) => Item::Data(d.clone()), Item::Err(e) => Item::Err(e.clone()) }).collect::<Vec<_>>(), a.1, a.2)
+    };
+    let mut log = server.lock().unwrap().log.clone();
+    if log_cut != usize::MAX {
+        log.truncate(log_cut);
+    }
     net::uninstall();
-    let elapsed = simkit::now_ns() - t0;
+    let elapsed = if t_err > 0 { t_err - t0 } else { simkit::now_ns() - t0 };
     // chunk streams must resume; single reads may resume or start over: whichever the observed
     // requests follow is then held to its own consequences
     let ranges_of = |plan: &Vec<(u32, bool, Vec<(u64, u64)>)>| -> Vec<String> { plan.iter().flat_map(|(_, _, reqs)| reqs.iter().map(|(a, b)| format!("bytes={}-{}", a, b))).collect() };
@@ -412,6 +444,24 @@ fn run_http(ctx: &mut Ctx, content: Arc<Vec<u8>>, ranges: Vec<(u64, usize)>, sin
     }
     if !check_items(ctx, &items, &content, &ranges, ok_ranges, fatal, &desc) {
         return;
+    }
+    // after the error: more errors, the end of the stream, or -- for a reader that recovers --
+    // the next range's exact bytes; never anything else
+    {
+        let mut i = items.iter().filter(|x| matches!(x, Item::Data(_))).count();
+        for it in &after_items {
+            if let Item::Data(d) = it {
+                let ok = ranges.get(i).map(|&(o, s)| content.get(o as usize..o as usize + s).map(|w| w == &d[..]).unwrap_or(false)).unwrap_or(false);
+                if !ok {
+                    ctx.fail("wrong-bytes-after-error", format!("polled again after its error the stream delivered {} bytes that are not the bytes of range #{}; {}", d.len(), i, desc));
+                    return;
+                }
+                i += 1;
+            }
+        }
+        if !after_items.is_empty() {
+            simkit::count("probe:polled-after-error");
+        }
     }
     // the requests: every (re)request starts at the first byte not yet delivered and ends at the run's end
     let want: Vec<String> = plan.iter().flat_map(|(_, _, reqs)| reqs.iter().map(|(a, b)| format!("bytes={}-{}", a, b))).collect();
